@@ -174,7 +174,7 @@ def run_pg(tier, seed, corpus=None, histories=None):
     rc, out, binp = vflib.build_harness("hpg", ws="harness_pg")
     if rc != 0:
         return {"build_error": out[-3000:]}
-    rc2, out2 = vflib.build_layer(LAYER)
+    rc2, out2 = vflib.build_layer(LAYER, targets="models")
     if rc2 != 0:
         return {"coq_error": out2[-3000:]}
     key = tree_hash(["/repo/crates/vespertide-core", "/repo/crates/vespertide-planner", "/repo/crates/vespertide-naming",
@@ -429,7 +429,7 @@ def c03_replay(path):
 def _part(prop_file, tier, seed):
     """compile Properties/<prop_file>.v of the pg layer; the behavioural tie is this layer's K-sql(pg) run"""
     bad = vflib.grep_forbidden(LAYER)
-    rc, out = vflib.build_layer(LAYER)
+    rc, out = vflib.build_layer(LAYER, targets=vflib.model_targets(LAYER) + ["Properties/%s.vo" % prop_file])
     if rc != 0 or bad:
         return {"ok": False, "obligations": 0, "discharged": 0, "details": {"build": out[-1500:], "forbidden": bad}}
     r = vflib.compile_property(LAYER, prop_file)
